@@ -287,7 +287,8 @@ def parse_game(lines):
             continue
         cur.raw.append(ln)
         if tag == "obs":
-            cur.obs = parse_kv(ln)[1]
+            kv = parse_kv(ln)[1]
+            cur.obs = kv if "fen" in kv else None      # (no game loaded: the root text was refused; C17 judges that, nothing to observe here)
         elif tag == "gend":
             cur.gend = parse_kv(ln)[1]
         elif tag == "dump":
